@@ -30,7 +30,9 @@ func (core *JApiCore) compileCore() *jerr.JApiError {
 		return je
 	}
 
-	core.collectUserTypes()
+	if je := core.collectUserTypes(); je != nil {
+		return je
+	}
 
 	if je := core.compileUserTypes(); je != nil {
 		return je
@@ -90,10 +92,16 @@ func (core *JApiCore) findPaste(macroName string, d *directive.Directive, visite
 	return nil
 }
 
-func (core *JApiCore) collectUserTypes() {
+func (core *JApiCore) collectUserTypes() *jerr.JApiError {
 	for _, d := range core.directivesWithPastes {
 		if d.Type() == directive.Type {
+			// A second TYPE with the same name would replace the first one here
+			// and be reported, if at all, where the name is used.
+			if name := d.NamedParameter("Name"); core.catalog.GetRawUserTypes().Has(name) {
+				return d.KeywordError(fmt.Sprintf("%s (%q)", jerr.DuplicateNames, name))
+			}
 			core.catalog.AddRawUserType(d)
 		}
 	}
+	return nil
 }
